@@ -210,6 +210,8 @@ def choose_value(rng, f, maxcount=3, col_mode=None):
             return dict(raw=rng.choice([0, 1]), af=0)
         if f["desc"] in (31011, 31012):
             return dict(raw=rng.randint(1, min(ones, 5)), af=0)
+        if f["desc"] == 31001 and rng.random() < 0.04:
+            return dict(raw=ones, af=0)          # the all-ones count (255): a value, not 'missing' (class 31)
         return dict(raw=rng.choice([0, 0, 1, 1, 2, 2, 3, maxcount]), af=0)
     if f["kind"] == "refdef":
         mag = rng.choice([0, 1, (1 << (w - 1)) - 1, rng.getrandbits(w - 1)]) if w > 1 else 0
